@@ -888,6 +888,7 @@ func c13xGenProgram(rng *kit.RNG) []c13xStep {
 func TestVerifC13Cluster(t *testing.T) {
 	rep := kit.NewReport("C13", "cluster")
 	defer rep.Write()
+	defer c13UnitWatchdog(rep, "cluster")()
 	rep.SetRule(c13xRule)
 	rep.Assume("'at most one member of a group is served a given partition at any time' is read per LOGICAL partition across the cluster: the group bookkeeping lives in the partition object of the server that leads the partition, therefore a NEW group subscription must never be accepted by a server that is not the partition leader (by its own metadata) - with or without ReadISRReplica, whatever its epoch")
 	rep.Assume("what the unchanged tree does with a subscription that SURVIVES on a deposed leader was established first: subscribe loops read the local log and are not ended by a leader change, so the old member keeps being served by the deposed leader (now a follower) while the new leader accepts a new member; likewise a leader that has not yet learnt of its replacement still accepts members. Both are the existing design (no server can know better at that moment) and are only counted (observations_*, accepted_by_a_leader_that_had_not_yet_learnt_*), never reported")
